@@ -445,6 +445,7 @@ func runC19(w *W) {
 	mk("small", []byte(`{"a":1,"b":"two","c":[3,4.5,true,null,{"d":"e"}],"f":{"g":[],"h":{}},"n":99999999999999999999}`), false, 0)
 	mk("edited", []byte(`{"a":[1,2,3,{"x":"y"}],"b":"str","c":{"k":[true,false]},"d":"gone"}`), false, 3)
 	mk("nd", []byte("{\"a\":1}\n[2,\"x\"]\n{\"b\":{\"c\":null}}\n"), true, 1)
+	mk("deep", gen.Nest(140, 2, `[1,"x"]`), false, 0) // deeper than any preallocated scope stack (100, 128)
 	mk("medium", gen.Doc(r.Split(), gen.DocCfg{Size: 3000, MaxDepth: 5, MaxFan: 6, Esc: 20, DupKeys: true}), false, 2)
 	big := w.c11MakeDoc(r, "big", gen.Doc(r.Split(), gen.DocCfg{Size: 60000, MaxDepth: 5, MaxFan: 8, Esc: 20, DupKeys: true}), false, 0)
 	if big != nil {
@@ -531,6 +532,58 @@ func runC19(w *W) {
 			m.plain[2] = append(append(append([]byte{}, tags[:i]...), tags[i]), tags[i:]...)
 			m.secSize[2]++
 			w.c19Try(st, "tag-dup:"+s.name, m.build())
+		}
+		// nop runs measured against the declared tape end: a prefix of the tag stream,
+		// then exactly (or one off) as many N tags as tape words remain, then one more tag
+		tagWords := func(t byte) int {
+			switch t {
+			case '"', 'l', 'u', 'd', 'e':
+				return 2
+			}
+			return 1
+		}
+		used := 0
+		for i := 0; i <= len(tags); i++ {
+			if i > 0 {
+				used += tagWords(tags[i-1])
+			}
+			if !(len(tags) <= 80 || i < 12 || i >= len(tags)-12 || (i+int(w.Out.Seed))%29 == 0) {
+				continue
+			}
+			rem := int(c.tapeSize) - used
+			for _, L := range []int{rem - 2, rem - 1, rem, rem + 1} {
+				if L <= 0 || L > 1<<16 {
+					continue
+				}
+				for _, t := range append([]byte{'N'}, tagLetters...) {
+					m := c.clone()
+					m.plain[2] = append(append(append([]byte{}, tags[:i]...), bytes.Repeat([]byte{'N'}, L)...), t)
+					if t == 'N' {
+						m.plain[2] = m.plain[2][:len(m.plain[2])-1] // the run alone ends the stream
+					}
+					m.secSize[2] = uint64(len(m.plain[2]))
+					w.c19Try(st, "nop-tail:"+s.name, m.build())
+				}
+			}
+			// a span of tags replaced by a nop run of the same (or one off) word count
+			for _, span := range []int{1, 2, 3, 5, 9} {
+				if i+span > len(tags) {
+					break
+				}
+				sw := 0
+				for _, t := range tags[i : i+span] {
+					sw += tagWords(t)
+				}
+				for _, L := range []int{sw - 1, sw, sw + 1} {
+					if L <= 0 {
+						continue
+					}
+					m := c.clone()
+					m.plain[2] = append(append(append([]byte{}, tags[:i]...), bytes.Repeat([]byte{'N'}, L)...), tags[i+span:]...)
+					m.secSize[2] = uint64(len(m.plain[2]))
+					w.c19Try(st, "nop-span:"+s.name, m.build())
+				}
+			}
 		}
 		// value words
 		words := []uint64{0, 1, ^uint64(0), ^uint64(0) - 1, c.tapeSize, c.tapeSize - 1, c.tapeSize + 1, 1 << 56, 1 << 63, 1<<63 - 1, uint64(len(c.plain[1])), uint64(len(c.plain[1])) + 1, 2, 3}
